@@ -95,8 +95,8 @@ def _paths(ctx, S):
     out = []
     for n in range(0, depth + 1):
         for combo in itertools.product(COMPONENTS, repeat=n):
-            if n == depth and not ctx.thorough and hash(combo) % 3:
-                continue            # quick: a third of the deepest level
+            if n == depth and not ctx.thorough and (sum(map(len, combo)) + len(combo[0])) % 6:
+                continue            # quick: a sixth of the deepest level (deterministic)
             rel = "/".join(combo)
             out.append(rel)
             out.append("/" + rel)
@@ -136,12 +136,12 @@ def _entry_points(t):
         "write_json": lambda p: st.write_json(p, {"a": 1}),
         "delete_file": lambda p: st.delete_file(p),
         "makedirs": lambda p: st.makedirs(p),
-        "create_lock": lambda p: st.create_lock(p).acquire(),
+        "create_lock": lambda p: st.create_lock(p),
     }
     return eps, mutating
 
 
-def _judge(rep, S, root_real, ep, p, via, fp_before, outcome, exc):
+def _judge(rep, S, root_real, ep, p, via, fp_before, outcome, exc, check_fp=True):
     log, _AUDIT["log"] = _AUDIT["log"], []
     touched = []
     for kind, path, mode in log:
@@ -155,11 +155,15 @@ def _judge(rep, S, root_real, ep, p, via, fp_before, outcome, exc):
     case = {"kind": "path", "entry_point": ep, "path": p, "root_via": via}
     if touched:
         wrote = [x for x in touched if x[2] == "w"]
-        if ep in ("write_file", "write_json") and all(os.path.dirname(x[1]) in ("", ".") for x in touched) and p.strip("/.") == "":
+        if ep in ("write_file", "write_json") and all(os.path.dirname(x[1]) in ("", ".") for x in touched) and any(".tmp." in x[1] for x in touched):
             sig = "C17:write-to-root-itself-creates-temp-file-in-parent"
         else:
             sig = f"C17:{'write' if wrote else 'read'}-outside-root:{ep}"
         rep.violate(sig, f"{ep}({p!r}) via {via}: touched {touched[:3]} outside the canonical root ({outcome})", case)
+    if not check_fp:
+        if outcome == "ok" and isinstance(exc, (bytes, str)) and b"SENTINEL" in (exc if isinstance(exc, bytes) else exc.encode()):
+            rep.violate(f"C17:sentinel-content-returned:{ep}", f"{ep}({p!r}) via {via} returned content of a file outside the root", case)
+        return fp_before
     fp_after = _fingerprint(S)
     if fp_after != fp_before:
         diff = [k for k in set(fp_before) | set(fp_after) if fp_before.get(k) != fp_after.get(k)]
@@ -195,7 +199,12 @@ def _oracle(ctx, rep, base):
                 rep.distribution[f"{ep}:{outcome.split(':')[0]}"] += 1
                 if outcome == "ok":
                     rep.nontrivial(["c17", ep, p, via])
-                fp = _judge(rep, S, root_real, ep, p, via, fp, outcome, val)
+                fp = _judge(rep, S, root_real, ep, p, via, fp, outcome, val, check_fp=False)
+            fp2 = _fingerprint(S)
+            if fp2 != fp:
+                rep.violate(f"C17:sentinel-changed:{ep}", f"{ep} (read-only entry point) via {via}: the tree outside the root changed during its batch",
+                            {"kind": "path", "entry_point": ep, "root_via": via})
+                fp = fp2
         # mutating entry points: restore the layout after each batch of one path (cheap: only when something inside changed)
         mpaths = paths if ctx.thorough else [p for i, p in enumerate(paths) if i % 4 == 0 or len(p) < 12]
         for ep, fn in mut.items():
@@ -279,7 +288,7 @@ def _correspond(ctx, rep, base, model_ok):
 def run(ctx, model_ok):
     rep = Report()
     rep.rule = ("exhaustive path grammar: components {.., ., '', data, x, linkout(→outside dir), linkin(→inside dir), flink(→outside file), "
-                "sentinel.txt, root2, outside, metadata} to depth 3 (thorough 4; quick takes a third of the deepest level), with and without "
+                "sentinel.txt, root2, outside, metadata} to depth 3 (thorough 4; quick takes a sixth of the deepest level), with and without "
                 "leading '/', plus true absolute paths inside / outside / sibling-prefix / through the root symlink, NUL × 15 read entry points "
                 "(+5 mutating ones on a subset) × root reached directly / via symlink; audit hook + sentinel fingerprint. non-trivial = call succeeded.")
     base = scratch_dir("c17-")
